@@ -6,6 +6,8 @@ Assumed contract of sklearn.preprocessing.LabelEncoder (fitted, K classes):
     inverse_transform(c)[t] = LDEC(c[t])                                       (raises on a code outside [0, K))
     LDEC(LCODE(x)) = x for every x the encoder was fitted on                    (used by the round-trip lemma only)
 Ensures (1-D arrays of any length, any sentinel):
+    fit(y)                   : _le is a NEW LabelEncoder fitted on `classes` when given; _dtype = dtype token of np.append(classes | y,
+                               missing_label) (provenance only: numpy's promotion is not modelled); classes_ = _le.classes_; returns self
     transform(y)[i]          = -1 if y[i] is the sentinel, else LCODE(y[i]) (and then 0 <= code < K); integer array of the same length
     inverse_transform(c)[i]  = the sentinel if c[i] == -1, else LDEC(c[i]); same length
     round trip (lemma over the two contracts): inverse_transform(transform(y))[i] = y[i] for labeled y[i], the sentinel otherwise
@@ -139,6 +141,81 @@ def unit_inverse():
     return se_unit("label_encoder.inverse_transform.1d", FE, "ExtLabelEncoder.inverse_transform", "ExtLabelEncoder", setup, post, lib_factory=enc_lib)
 
 
+def fit_lib(log):
+    """library for ExtLabelEncoder.fit: LabelEncoder() is a fresh encoder object, LabelEncoder.fit records what it was fitted on,
+    np.append(a, b) is only used for its dtype: the result carries DTYPE(a, b), an opaque token recorded with its two arguments
+    (numpy's dtype promotion itself is not modelled)"""
+    L = enc_lib()
+
+    @L.fn("LabelEncoder")
+    def _new(E, st, args, kw, node):
+        r = st.alloc(ObjData("__LabelEncoder__", {"__open__": True, "classes_": Opaque("le_classes_")}))
+        log.append(("new", r))
+        return r
+
+    @L.fn("np.append")
+    def _app(E, st, args, kw, node):
+        d = Opaque("dtype_of_append")
+        log.append(("append", d, args[0], args[1]))
+        return st.alloc(ObjData("__appended__", {"dtype": d}))
+
+    def le_fit(E, st, recv, args, kw, node):
+        log.append(("fit", recv, args[0]))
+        return recv
+    L.contracts["__LabelEncoder__.fit"] = le_fit
+    return L
+
+
+def unit_fit(with_classes):
+    """ExtLabelEncoder.fit: the wrapped encoder is a NEW LabelEncoder fitted exactly once - on the class list when one is given -, the
+    decode dtype `_dtype` is the dtype of np.append(<what the encoder was fitted on: the class list, else y>, missing_label), i.e. with a
+    class list it does not depend on the array handed to fit; classes_ are the wrapped encoder's; fit returns self."""
+    log = []
+
+    def setup(E, st):
+        del log[:]
+        n = z3.Int("n")
+        st.assume(n >= 0)
+        y = ArrData((n,), fresh_sel("y", "o"), "o")
+        ml = Opaque("missing_label")
+        cl = Opaque("classes") if with_classes else None
+        if with_classes:
+            st.assume(z3.Not(z3.Bool("isnone:" + str(cl.sym))))      # a class list is given
+        old_le = st.alloc(ObjData("__LabelEncoder__", {"__open__": True}))
+        o = st.alloc(ObjData("ExtLabelEncoder", {"classes": cl, "missing_label": ml, "_le": old_le, "_dtype": Opaque("old_dtype"),
+                                                 "classes_": Opaque("old_classes_")}))
+        yr = st.alloc(y)
+        return {"args": [o, yr], "self": o, "y": yr, "ml": ml, "cl": cl, "old_le": old_le}
+
+    def post(E, ctx, outs):
+        rets = returns(outs)
+        if not rets:
+            E.oblige("reaches.return", [], z3.BoolVal(False))
+        for o in rets:
+            f = o.state.get(ctx["self"]).fields
+            E.oblige("C16.fit.returns_self", o.state, z3.BoolVal(isinstance(o.value, Ref) and o.value == ctx["self"]))
+            le = f.get("_le")
+            news = [e[1] for e in log if e[0] == "new"]
+            E.oblige("C16.fit.wraps_a_new_encoder", o.state, z3.BoolVal(isinstance(le, Ref) and le != ctx["old_le"] and any(le == r for r in news)))
+            fits = [e for e in log if e[0] == "fit" and e[1] == le]
+            apps = {id(e[1]): e for e in log if e[0] == "append"}
+            dt = f.get("_dtype")
+            src = apps.get(id(dt))
+            if with_classes:
+                E.oblige("C16.fit.encoder_fitted_on_the_class_list", o.state,
+                         z3.BoolVal(bool(fits) and all(isinstance(e[2], Opaque) and e[2] is ctx["cl"] for e in fits)))
+                E.oblige("C16.fit.decode_dtype_from_class_list_and_sentinel", o.state,
+                         z3.BoolVal(src is not None and src[2] is ctx["cl"] and src[3] is ctx["ml"]))
+            else:
+                E.oblige("C16.fit.encoder_fitted", o.state, z3.BoolVal(bool(fits)))
+                E.oblige("C16.fit.decode_dtype_from_labels_and_sentinel", o.state,
+                         z3.BoolVal(src is not None and isinstance(src[2], Ref) and src[2] == ctx["y"] and src[3] is ctx["ml"]))
+            lec = o.state.get(le).fields.get("classes_") if isinstance(le, Ref) else None
+            E.oblige("C16.fit.classes__are_the_wrapped_encoders", o.state, z3.BoolVal(lec is not None and f.get("classes_") is lec))
+    return se_unit("label_encoder.fit." + ("classes_given" if with_classes else "classes_from_labels"), FE, "ExtLabelEncoder.fit", "ExtLabelEncoder",
+                   setup, post, lib_factory=lambda: fit_lib(log))
+
+
 def unit_round_trip(tier):
     """lemma over the two contracts above and LabelEncoder's inverse law"""
     US = USort
@@ -160,4 +237,4 @@ def unit_round_trip(tier):
             "obligations": [r], "abstracted": [], "dropped": [], "lib": [], "paths": 1}
 
 
-UNITS = {"transform.1d": unit_transform(), "inverse_transform.1d": unit_inverse(), "round_trip": unit_round_trip}
+UNITS = {"fit.classes_given": unit_fit(True), "fit.classes_from_labels": unit_fit(False), "transform.1d": unit_transform(), "inverse_transform.1d": unit_inverse(), "round_trip": unit_round_trip}
